@@ -151,3 +151,56 @@ func verifInvertThenMultiply(s *Scalar) *Scalar {
 //@   uses ninv_mul(sv(s))
 //@   ensures one [C06]: wfs(result) && imp(sv(s) != Fn(0), sv(result) == Fn(1))
 //@   returns fresh
+
+// [0]P = identity for every P, through the public constructors (C01).
+func verifMultiplyByZero(e *Element) *Element {
+	return e.Multiply(NewScalar())
+}
+
+//@ lemma smul_gzero(k) {lean: smul_zero}: smul(k, gzero()) == gzero()
+//@ func verifMultiplyByZero
+//@   mode int
+//@   requires inv(e)
+//@   uses smul_zero(pt(e))
+//@   ensures zero [C01]: inv(e) && pt(e) == gzero()
+//@   modifies *e
+//@   returns e
+
+// [k]identity = identity for every scalar k (C01).
+func verifMultiplyIdentity(s *Scalar) *Element {
+	return NewElement().Multiply(s)
+}
+
+//@ func verifMultiplyIdentity
+//@   mode int
+//@   requires wfs(s)
+//@   uses smul_gzero(fint(sv(s)))
+//@   ensures id [C01]: inv(result) && pt(result) == gzero()
+//@   returns fresh
+
+// [1]P = P (the documented shortcut) (C01).
+func verifMultiplyByOne(e *Element) *Element {
+	return e.Multiply(NewScalar().One())
+}
+
+//@ func verifMultiplyByOne
+//@   mode int
+//@   requires inv(e)
+//@   uses smul_one(pt(e))
+//@   ensures one [C01]: inv(e) && pt(e) == old(pt(e))
+//@   modifies *e
+//@   returns e
+
+// CSelect with any non-zero condition word selects the second operand, with 0 the first (C13).
+func verifCSelectMask(s, u, v *Scalar) (error, error) {
+	e1 := s.CSelect(0xffffffffffffffff, u, v)
+	t := NewScalar()
+	e2 := t.CSelect(0, s, v)
+	return e1, e2
+}
+
+//@ func verifCSelectMask
+//@   mode int
+//@   requires wfs(s) && wfs(u) && wfs(v)
+//@   ensures sel [C13]: result0 == 0 && result1 == 0 && sv(s) == old(sv(v))
+//@   modifies *s
